@@ -38,8 +38,8 @@ def equo(n, d):
 RANGES = {"i64": (-2**63, 2**63 - 1), "u64": (0, 2**64 - 1), "i32": (-2**31, 2**31 - 1), "u32": (0, 2**32 - 1),
           "u16": (0, 2**16 - 1), "i16": (-2**15, 2**15 - 1), "i8": (-128, 127), "u8": (0, 255), "d53": (-2**53, 2**53),
           "f24": (-2**24, 2**24),
-          "dbl": (-(2**64 - 2**11), 2**64 - 2**11),        # integer-valued doubles l with |l| < 2^64
-          "dblx": (-(2**68 - 2**15), 2**68 - 2**15),       # K = 16 l for doubles l with 4 fractional bits, 1 <= |trunc l| < 2^64
+          "dbl": (-2**120, 2**120),                        # integer-valued doubles l (any magnitude since 2c6554a)
+          "dblx": (-2**124, 2**124),                       # K = 16 l for doubles l with 4 fractional bits, |trunc l| >= 1
           "i64s": (-2**63 + 1, 2**63 - 1),                  # int64_t without INT64_MIN (std::abs / unary minus defined)
           "udblx": (0, 2**68 - 2**15),                     # K = 16 x for non-negative doubles x < 2^64 with 4 fractional bits
           "Z": None}
@@ -85,7 +85,7 @@ SPEC = {
     # raw C conversions (CInt layer of the model), second operand unused
     "c.u64": lambda n, d: [n % 2**64], "c.i64": lambda n, d: [wrap(n, "i64")], "c.i32": lambda n, d: [wrap(n, "i32")],
     "c.i16": lambda n, d: [wrap(n, "i16")], "c.abs": lambda n, d: [abs(n)], "c.neg": lambda n, d: [(-n) % 2**64],
-    "c.dbl": lambda n, d: [int(float(n))], "c.trunc16": lambda n, d: [n // 16],
+    "c.dbl": lambda n, d: [int(float(n))], "c.trunc16": lambda n, d: [n // 16], "c.trunc53": lambda n, d: [fix53(n)],
 }
 # configuration the model is written for: what the compiled harness must print (LP64, 64-bit limbs, IEEE binary64)
 CFG = {"cfg.sizeof_long": 8, "cfg.givaro_sizeof_long": 8, "cfg.limb_bits": 64, "cfg.ulong_max": 2**64 - 1, "cfg.i64_min": -2**63,
@@ -137,8 +137,8 @@ form("mod.u", "emod", "Z", "u32"); form("dom.mod", "emod"); form("dom.modin", "e
 form("op%=.I", "tr"); form("op%=.ul", "tr", "Z", "u64"); form("op%=.l", "tr", "Z", "i64"); form("op%=.u", "tr", "Z", "u32")
 form("op%=.i", "tr", "Z", "i32"); form("op%=.T", "tr"); form("op%=.Ts", "tr", "Z", "i16")
 form("op%.I", "tr"); form("op%.ul", "tr", "Z", "u64", "i64"); form("op%.l", "tr", "Z", "i64")
-form("op%.u", "tr", "Z", "u32", "i32"); form("op%.i", "tr", "Z", "i32"); form("op%.us", "tr", "Z", "u16", "i16")
-form("op%.Ts", "tr", "Z", "i16"); form("op%.d", "tr", "Z", "dbl", "dbl_i64"); form("op%.dx", "tr_x16", "Z", "dblx", "dbl_i64")
+form("op%.u", "tr", "Z", "u32"); form("op%.i", "tr", "Z", "i32"); form("op%.us", "tr", "Z", "u16")
+form("op%.Ts", "tr", "Z", "i16"); form("op%.d", "tr", "Z", "dbl", "dbl"); form("op%.dx", "tr_x16", "Z", "dblx", "dbl")
 form("op%.Tf", "tr", "Z", "f24")
 # small integer types: promotions to int and template instantiations
 form("op/.s", "tq", "Z", "i16"); form("op/.us", "tq", "Z", "u16"); form("op/.c", "tq", "Z", "i8")
@@ -168,13 +168,13 @@ TABLE_FORMS = sorted(f for f in F if not f.startswith("gmp."))      # what coq/C
 # trusted layers run against the compiled code: raw conversions and configuration constants (operand d unused, always 1)
 form("cast.i64_u64", "c.u64", "i64", "one"); form("cast.u64_i64", "c.i64", "u64", "one"); form("cast.i64_i32", "c.i32", "i64", "one")
 form("cast.i64_i16", "c.i16", "i64", "one"); form("cast.u64_i32", "c.i32", "u64", "one"); form("cast.abs64", "c.abs", "i64s", "one")
-form("cast.neg64", "c.neg", "i64s", "one"); form("cast.i64_dbl", "c.dbl", "i64", "one"); form("cast.dbl_u64", "c.trunc16", "udblx", "one")
+form("cast.neg64", "c.neg", "i64s", "one"); form("cast.i64_dbl", "c.dbl", "i64", "one"); form("cast.mpz_dbl", "c.trunc53", "Z", "one"); form("cast.dbl_u64", "c.trunc16", "udblx", "one")
 for _k in CFG:
     form(_k, _k, "one", "one")
 RANGES["one"] = (1, 1)
 def conv_name(f):
     kind, nt, dt, ret = F[f]
-    return kind if ret is None else kind + "|fits:" + ret
+    return kind if ret is None else (kind + ">dbl" if ret == "dbl" else kind + "|fits:" + ret)
 
 # Site / input-class strings of the call forms that have (had) an entry in known_findings.json: the strings are
 # the keys of those entries, so they stay as they were recorded.  Every other form gets "Integer::<form>" and
@@ -189,23 +189,16 @@ SITES = {
     "dom.quoin": ("IntegerDom::quoin", lambda n, d: "d<0" if d < 0 else "d>0"),
 }
 
-NARROW = {   # `%` overloads whose return type cannot hold every remainder: form -> (site, return type)
+NARROW = {   # the one `%` overload whose return type cannot hold every remainder and that has no repair: form -> (site, return type)
     "op%.ul": ("Integer::operator%(uint64_t)->int64_t", "i64"), "op%.UL": ("Integer::operator%(uint64_t)->int64_t", "i64"),
-    "op%.u": ("Integer::operator%(uint32_t)->int32_t", "i32"), "op%.us": ("Integer::operator%(uint16_t)->int16_t", "i16"),
-    "op%.d": ("Integer::operator%(double)->double", "dbl"), "op%.dx": ("Integer::operator%(double)->double", "dbl"),
 }
 K_NOFIT = "remainder does not fit the return type"
-K_NOFIT64 = "remainder does not fit int64_t"
-K_NODBL = "remainder is not a double"
 
 def narrowed(f, r):
-    """what the code is known to return for a remainder r of a NARROW form (documentation of the findings, theorem
-    C02_percent_operators_narrow_return_wrap / C02_percent_double), and the value class of r"""
+    """what the code is known to return for a remainder r of a NARROW form (documentation of the finding, theorem
+    C02_percent_operators_narrow_return_wrap), and the value class of r (None: r fits, nothing is masked)"""
     site, rt = NARROW[f]
-    if rt != "dbl":
-        return wrap(r, rt), (K_NOFIT if not fits(r, rt) else None)
-    w = wrap(r, "i64")
-    return int(float(w)), (K_NOFIT64 if w != r else (K_NODBL if int(float(r)) != r else None))
+    return wrap(r, rt), (K_NOFIT if not fits(r, rt) else None)
 
 def site_of(f, n, d, observed=None):
     if f in NARROW and d != 0:
@@ -330,33 +323,13 @@ DIRECTED = [
 
 # operator%(double): remainders above 2^53 that fall on / next to a rounding tie of the int64_t -> double conversion, and
 # divisors above 2^63 whose remainder does not fit the intermediate int64_t
-for _d in (2**63, -2**63, 2**64 - 2**11, 2**63 + 2**11, -(2**64 - 2**11)):
+for _d in (2**63, -2**63, 2**64 - 2**11, 2**63 + 2**11, -(2**64 - 2**11), 2**64, -2**70, 2**100 + 2**60):
     for _n in (2**53 + 1, 2**53 + 3, 2**54 + 2, 2**54 + 6, 2**54 + 1, 2**62 + 2**9, 2**62 + 3 * 2**9, 2**62 + 2**9 + 1, 2**63 - 1,
                2**63 - 513, 2**63 + 1025, 2**64 - 2**11 - 1, 2**64 - 2**12 + 1, 2**64 + 2**53 + 1):
         DIRECTED.append(("op%.d", _n, _d)); DIRECTED.append(("op%.d", -_n, _d))
-        DIRECTED.append(("op%.dx", _n, 16 * _d)); DIRECTED.append(("op%.ul", -_n, abs(_d)))
-
-ASSERT_SITES = ["Integer::mod(Integer&,const Integer&,int64_t) [asserts on]", "Integer::operator%(int64_t)->int64_t [asserts on]",
-                "Integer::operator%(double)->double [asserts on]"]
-def merged_known():
-    """known_findings.json is the coordinator's file; until frag/C02.findings.json is merged into it the
-    entries of the fragment are honoured as well (same matching rule: site + class)."""
-    base = _orig_load_known()
-    p = os.path.join(vf.ROOT, "frag", "C02.findings.json")
-    try:
-        extra = json.load(open(p))
-    except (OSError, ValueError):
-        extra = []
-    have = {(k.get("property"), k.get("site"), k.get("klass")) for k in base}
-    allowed = {s for s, _ in NARROW.values()} | set(ASSERT_SITES)        # nothing else can be masked from the fragment
-    for e in extra:
-        if e.get("property") == PID and e.get("site") in allowed and (e.get("property"), e.get("site"), e.get("klass")) not in have:
-            base.append(e)
-    return base
-
-_orig_load_known = vf.load_known
-vf.load_known = merged_known
-
+        DIRECTED.append(("op%.dx", _n, 16 * _d))
+        if abs(_d) < 2**64:
+            DIRECTED.append(("op%.ul", -_n, abs(_d)))
 
 # ------------------------------------------------------------------ seed-independent limit grid (every run, every seed)
 LIMS = [2**7 - 1, 2**7, 2**8 - 1, 2**8, 2**15 - 1, 2**15, 2**16 - 1, 2**16, 2**24, 2**31 - 1, 2**31, 2**31 + 1, 2**32 - 1, 2**32, 2**32 + 1,
@@ -431,7 +404,7 @@ MODEL_OF = {   # Gallina definition of coq/C02/Model.v  ->  C++ definition (name
 }
 FRIENDS = ["operator/(int32_t,Integer)", "operator/(int64_t,Integer)", "operator/(uint32_t,Integer)", "operator/(uint64_t,Integer)",
            "operator%(int32_t,Integer)", "operator%(int64_t,Integer)", "operator%(uint32_t,Integer)", "operator%(uint64_t,Integer)"]
-CALLEE = {"op_mod_ul": "operator%", "div_l": "div"}          # model definitions that forward to another overload
+CALLEE = {"op_mod_ul": "operator%", "op_mod_I": "operator%", "div_l": "div"}          # model definitions that forward to another overload
 FORWARDERS = {   # inline forwarders of gmp++_int.h: Gallina definition -> (member, divisor type)
     "op_div_u": ("operator/", "uint32_t"), "op_div_i": ("operator/", "int32_t"), "op_diveq_u": ("operator/=", "uint32_t"),
     "op_diveq_i": ("operator/=", "int32_t"), "mod_i": ("mod", "int32_t"), "mod_u": ("mod", "uint32_t"),
@@ -507,7 +480,7 @@ def source_tie(chk):
             bad("model definition %s missing" % g); continue
         # after the preprocessor the GMP entry points carry their linker names (__gmpz_tdiv_q ...; mpz_mod_ui is a macro for mpz_fdiv_r_ui)
         got = [re.sub(r"\s+|\(", "", t).replace("__gmpz_", "mpz_") for t in re.findall(r"\b__gmpz_\w+|operator\s*[%/]=?\s*\(|\bdiv\s*\(", defs[key])]
-        exp = [{"mpz_mod_ui": "mpz_fdiv_r_ui"}.get(t, CALLEE.get(t, t)) for t in re.findall(r"\bmpz_\w+|\bop_mod_ul\b|\bdiv_l\b", md[g])]
+        exp = [{"mpz_mod_ui": "mpz_fdiv_r_ui"}.get(t, CALLEE.get(t, t)) for t in re.findall(r"\bmpz_\w+|\bop_mod_ul\b|\bop_mod_I\b|\bdiv_l\b", md[g])]
         tie["primitive_sequences_compared"] += 1
         if got != exp:
             bad("%s calls %s in the source, the model body %s has %s" % (key, got, g, exp))
@@ -611,7 +584,7 @@ def run_binary(chk, binary, lines, label, inconclusive):
         crashed += 1
         if hung and rc == 97:
             # one case used more CPU time than the budget: run it alone with ten times the budget before reporting it
-            os.environ["C02_CPU_BUDGET"] = "200"
+            os.environ["C02_CPU_BUDGET"] = "120"
             try:
                 rc2, o2, _ = vf.run_lines(binary, lines[len(iout)], timeout=3000)
             finally:
@@ -619,7 +592,7 @@ def run_binary(chk, binary, lines, label, inconclusive):
             if rc2 == 0 and len(o2) == 1:
                 iout.append(o2[0])
             elif rc2 == 97:
-                iout.append("DOES-NOT-RETURN (more than 200 s of CPU time for this one call)")
+                iout.append("DOES-NOT-RETURN (more than 120 s of CPU time for this one call)")
             elif rc2 == 124:
                 inconclusive.append("%s: re-run of a slow case timed out (wall clock)" % label)
                 iout.append("NOT-RUN")
@@ -653,23 +626,17 @@ def run_stream(chk, st, himpl, drv, all_cases, label, inconclusive, dbg=False):
             if iout[i] == "NOT-RUN":
                 continue
             exp = [0] if (dbg and f == "cfg.ndebug") else SPEC[kind](n, d)          # the property's convention, whatever the return type
+            if ret == "dbl":               # a double cannot hold every r: r converted towards zero (r itself whenever it is a double)
+                exp = [fix53(exp[0])]
             got = norm(iout[i])
             exps = [str(x) for x in exp]
             site, klass = site_of(f, n, d, got)
             if dbg:
                 st["ndbg"] += 1
                 if got != exps and not (f in NARROW and not iout[i].startswith("ASSERT-FAILED")):     # value deviations are the NDEBUG stream's business
-                    if iout[i].startswith("ASSERT-FAILED"):
-                        site, klass = site_of(f, n, d, None)
-                        asite = {"mod.l": ASSERT_SITES[0], "mod.L": ASSERT_SITES[0], "seq.mod.l": ASSERT_SITES[0], "mod.i": ASSERT_SITES[0],
-                                 "op%.l": ASSERT_SITES[1], "op%.i": ASSERT_SITES[1], "op%.d": ASSERT_SITES[2], "op%.dx": ASSERT_SITES[2]}.get(f, site + " [asserts on]")
-                        r = SPEC[kind](n, d)[0] if kind in ("tr", "tr_x16") else None
-                        aklass = ("d=INT64_MIN" if d == -2**63 else klass) if f not in NARROW else klass
-                        chk.fail_input(asite, aklass, {"form": f, "n": str(n), "d": str(d), "build": "-UNDEBUG -DDEBUG"}, exps, iout[i],
-                                       "an assert of the library fails in the debug configuration")
-                    else:
-                        chk.fail_input(site + " [asserts on]", klass, {"form": f, "n": str(n), "d": str(d), "build": "-UNDEBUG -DDEBUG"}, exps, iout[i],
-                                       "the debug configuration differs from the documented convention (%s)" % kind)
+                    chk.fail_input(site + " [asserts on]", klass, {"form": f, "n": str(n), "d": str(d), "build": "-UNDEBUG -DDEBUG"}, exps, iout[i],
+                                   "an assert of the library fails in the debug configuration" if iout[i].startswith("ASSERT-FAILED")
+                                   else "the debug configuration differs from the documented convention (%s)" % kind)
                 continue
             st["noracle"] += 1
             st["dist_form"][f] = st["dist_form"].get(f, 0) + 1
@@ -709,7 +676,7 @@ def main(tier, replay=None):
     ]
     chk.assumptions = ["model hand-written after the code, one definition per overload body; tie = correspondence on generated cases",
                        "d != 0 everywhere (division by zero is outside the documented contract)",
-                       "EVERY `%` overload is judged by the header's convention (r = a % b: |r| < |b|, a r >= 0), whatever its return type: the overloads whose return type cannot hold every remainder (int64_t %(uint64_t), int32_t %(uint32_t), int16_t %(uint16_t), double %(double)) deviate for the value class 'remainder does not fit the return type'; that is filed as a known finding per overload (frag/C02.findings.json) and masks only the narrowed value the code is known to return (theorems C02_percent_operators_narrow_return_wrap, C02_percent_double, C02_percent_narrow_return_refuted)",
+                       "EVERY `%` overload is judged by the header's convention (r = a % b: |r| < |b|, a r >= 0), whatever its return type. int64_t %(uint64_t) deviates for the value class 'remainder does not fit the return type' (divisor > 2^63, |r| >= 2^63): known finding, no repair without changing the return type; the key masks only the wrapped value the code is known to return, anything else about that overload is a violation. %(uint32_t), %(uint16_t) were repaired (e502f6c). double %(double) (2c6554a): expected = r converted to double towards zero (r itself whenever a double holds it)",
                        "template operator%(XXX) at unsigned char returns |r|: documented by the header ('Cast towards unsigned consider only the absolute value', gmp++_int.h Cast operators)",
                        "asserts-on stream: harness/c02_divmod.C compiled with -UNDEBUG -DDEBUG -DC02_ASSERTS re-compiles gmp++_int_div.C / gmp++_int_mod.C with their asserts; a failing assert is a failing input of that configuration"]
     # 1. proofs
@@ -762,9 +729,9 @@ def main(tier, replay=None):
                 cases.append((f, 1, 1, "configuration constant"))
                 continue
             if f.startswith("cast."):
-                lo, hi = RANGES[nt]
+                lo, hi = RANGES[nt] if nt != "Z" else (-2**200, 2**200)
                 vs = set(edges(nt)) | {v for L in LIMS for v in (L, -L, L - 1, 1 - L) if lo <= v <= hi}
-                vs |= {v for v in (2**53 + 1, 2**53 + 3, 2**54 + 2, 2**54 + 6, -(2**53 + 1), 2**62 + 2**9, 2**62 + 3 * 2**9, 2**63 - 513,
+                vs |= {v for v in (2**53 + 1, 2**53 + 3, 2**54 + 2, 2**54 + 6, -(2**53 + 1), 2**62 + 2**9, 2**62 + 3 * 2**9, 2**63 - 513, 2**100 + 1, -(2**130 - 1), 2**64 + 2**11 - 1,
                                    2**63 - 511, 16 * (2**64 - 2**11) + 15, 31, 16, 15, 0) if lo <= v <= hi}      # rounding ties of (double)int64_t
                 for v in sorted(vs):
                     v = fix_type(v, nt)
@@ -823,7 +790,11 @@ def main(tier, replay=None):
         kind, nt, dt, ret = F[f]
         assert (d != 0 or kind == "isdiv") and clampfit(n, nt) and clampfit(d, dt), (f, n, d)
         assert not f.startswith("seq.divexact") or n % d == 0
-    all_cases = cases
+    seen_case, all_cases = set(), []          # one line per (form, n, d): the grids overlap
+    for c in cases:
+        if c[:3] not in seen_case:
+            seen_case.add(c[:3])
+            all_cases.append(c)
     st = {"ncorr": 0, "noracle": 0, "nnarrow": 0, "ndbg": 0, "dist_form": {}, "dist_class": {}, "dist_sign": {}}
     run_stream(chk, st, himpl, drv, all_cases, "NDEBUG build", inconclusive)
     # 5. the same translation units compiled with givaro's --enable-debug flags (-UNDEBUG -DDEBUG): every assert of gmp++_int_div.C /
